@@ -53,7 +53,13 @@ from django_components.dependencies import (
     set_component_attrs_for_js_and_css,
 )
 from django_components.node import BaseNode
-from django_components.perfutil.component import ComponentRenderer, component_context_cache, component_post_render
+from django_components.perfutil.component import (
+    ComponentRenderer,
+    child_component_attrs,
+    component_context_cache,
+    component_post_render,
+    component_renderer_cache,
+)
 from django_components.perfutil.provide import register_provide_reference, unregister_provide_reference
 from django_components.provide import get_injected_context_var
 from django_components.slots import (
@@ -967,13 +973,17 @@ class Component(
         render_dependencies: bool = True,
         request: Optional[HttpRequest] = None,
     ) -> str:
+        # Filled in by `_render_impl()`, so we know what to clean up if the rendering fails
+        render_state: Dict[str, Any] = {}
+
         # Modify the error to display full component path (incl. slots)
         with component_error_message([self.name]):
             try:
                 return self._render_impl(
-                    context, args, kwargs, slots, escape_slots_content, type, render_dependencies, request
+                    context, args, kwargs, slots, escape_slots_content, type, render_dependencies, request, render_state
                 )
             except Exception as err:
+                _cleanup_failed_render(render_state)
                 raise err from None
 
     def _render_impl(
@@ -986,6 +996,7 @@ class Component(
         type: RenderType = "document",
         render_dependencies: bool = True,
         request: Optional[HttpRequest] = None,
+        render_state: Optional[Dict[str, Any]] = None,
     ) -> str:
         # NOTE: We must run validation before we normalize the slots, because the normalization
         #       wraps them in functions.
@@ -1041,6 +1052,11 @@ class Component(
             parent_id = None
             component_path = [self.name]
             post_render_callbacks = {}
+
+        if render_state is not None:
+            render_state["render_id"] = render_id
+            render_state["parent_id"] = parent_id
+            render_state["post_render_callbacks"] = post_render_callbacks
 
         trace_component_msg(
             "COMP_PREP_START",
@@ -1425,6 +1441,28 @@ class Component(
 
         # Validate data
         validate_typed_dict(data, data_type, f"Component '{self.name}'", "data")
+
+
+def _cleanup_failed_render(render_state: Dict[str, Any]) -> None:
+    """
+    Components are rendered in a deferred manner and keep their per-render data in global registries
+    until they are rendered. If the rendering fails, the components that are still waiting will never
+    be rendered, so their data has to be released here.
+    """
+    if "render_id" not in render_state:
+        return
+
+    # The component that failed while it was being prepared is never going to be rendered
+    component_ids = [render_state["render_id"]]
+    # And if the top-most component fails, none of the components below it are going to be rendered either
+    if render_state["parent_id"] is None:
+        component_ids.extend(render_state["post_render_callbacks"].keys())
+
+    for component_id in component_ids:
+        component_context_cache.pop(component_id, None)
+        component_renderer_cache.pop(component_id, None)
+        child_component_attrs.pop(component_id, None)
+        unregister_provide_reference(component_id)
 
 
 # Perf
